@@ -358,66 +358,83 @@ Fixpoint eat (want got : list event) : option (list event) :=
                   else eat want' got
   end.
 
-Definition mres := list (outcome * option mode * list event).
+(* A result: outcome, lock held, status of a pending handler return, rest of the stream.
+   The observable `Return status` of the real server is logged when the handler function has RETURNED, i.e.
+   after the exits of the enclosing `with` blocks; the matcher therefore keeps the status of an SReturn
+   pending and consumes it where the function boundary is crossed (SCall, or the end of the request). *)
+Definition mitem := (outcome * option mode * option status * list event)%type.
+Definition mres := list mitem.
+
+Definition status_eqb (a b : status) : bool :=
+  match a, b with StCode x, StCode y => N.eqb x y | StAny, StAny => true | _, _ => false end.
+Definition ostatus_eqb (a b : option status) : bool :=
+  match a, b with None, None => true | Some x, Some y => status_eqb x y | _, _ => false end.
 
 (* results are kept duplicate-free; the rest of the stream is always a suffix of the same stream,
    so two rests of equal length are equal *)
-Definition m_same (a b : outcome * option mode * list event) : bool :=
-  let '(o1, h1, r1) := a in let '(o2, h2, r2) := b in
-  outcome_eqb o1 o2 && omode_eqb h1 h2 && Nat.eqb (length r1) (length r2).
-Definition m_add (x : outcome * option mode * list event) (l : mres) : mres :=
-  if existsb (m_same x) l then l else x :: l.
+Definition m_same (a b : mitem) : bool :=
+  let '(o1, h1, p1, r1) := a in let '(o2, h2, p2, r2) := b in
+  outcome_eqb o1 o2 && omode_eqb h1 h2 && ostatus_eqb p1 p2 && Nat.eqb (length r1) (length r2).
+Definition m_add (x : mitem) (l : mres) : mres := if existsb (m_same x) l then l else x :: l.
 Definition m_union (a b : mres) : mres := fold_right m_add b a.
-Definition m_bind (f : outcome * option mode * list event -> mres) (l : mres) : mres :=
-  fold_right (fun x acc => m_union (f x) acc) [] l.
+Definition m_bind (f : mitem -> mres) (l : mres) : mres := fold_right (fun x acc => m_union (f x) acc) [] l.
 
-Definition m_emit (o : outcome) (h' : option mode) (want rest : list event) : mres :=
-  match eat want rest with Some r => [(o, h', r)] | None => [] end.
+Definition m_emit (o : outcome) (h' : option mode) (p : option status) (want rest : list event) : mres :=
+  match eat want rest with Some r => [(o, h', p, r)] | None => [] end.
+
+Definition m_leave (x : mitem) : mres := let '(o, h1, p, r1) := x in m_emit o None p (exit_events o h1) r1.
 
 Fixpoint m_loop (body : option mode -> list event -> mres) (fuel : nat) (h : option mode) (rest : list event) : mres :=
-  m_add (ONormal, h, rest)
+  m_add (ONormal, h, None, rest)
   match fuel with
   | O => []
   | S f =>
-      m_bind (fun x => let '(o, h1, r1) := x in
+      m_bind (fun x => let '(o, h1, p, r1) := x in
                        match o with
                        | ONormal | OContinue => if Nat.ltb (length r1) (length rest) then m_loop body f h1 r1 else []
-                       | OBreak => [(ONormal, h1, r1)]
-                       | _ => [(o, h1, r1)]
+                       | OBreak => [(ONormal, h1, None, r1)]
+                       | _ => [x]
                        end) (body h rest)
   end.
 
 Fixpoint mtch (s : skel) (h : option mode) (rest : list event) {struct s} : mres :=
-  m_add (ORaise, h, rest)
+  m_add (ORaise, h, None, rest)
   match s with
-  | SSkip => [(ONormal, h, rest)]
-  | SParse => m_union (m_emit ONormal h [EParse] rest) (m_emit ORaise h [EParseFail] rest)
-  | SStorage _ => [(ONormal, h, rest)]
-  | SEnter m => m_emit ONormal (Some m) [EAcquire m] rest
-  | SUnlock => m_emit ONormal None (exit_events ONormal h) rest
-  | SSeq a b => m_bind (fun x => let '(o, h1, r1) := x in
+  | SSkip => [(ONormal, h, None, rest)]
+  | SParse => m_union (m_emit ONormal h None [EParse] rest) (m_emit ORaise h None [EParseFail] rest)
+  | SStorage _ => [(ONormal, h, None, rest)]
+  | SEnter m => m_emit ONormal (Some m) None [EAcquire m] rest
+  | SUnlock => m_emit ONormal None None (exit_events ONormal h) rest
+  | SSeq a b => m_bind (fun x => let '(o, h1, _, r1) := x in
                                  match o with ONormal => mtch b h1 r1 | _ => [x] end) (mtch a h rest)
   | SAlt a b => m_union (mtch a h rest) (mtch b h rest)
   | SLoop b => m_loop (mtch b) (S (length rest)) h rest
   | SWith m b =>
       match eat [EAcquire m] rest with
-      | Some r0 => m_bind (fun x => let '(o, h1, r1) := x in m_emit o None (exit_events o h1) r1) (mtch b (Some m) r0)
+      | Some r0 => m_bind m_leave (mtch b (Some m) r0)
       | None => []
       end
-  | SStack b => m_bind (fun x => let '(o, h1, r1) := x in m_emit o None (exit_events o h1) r1) (mtch b h rest)
-  | STry b hd => m_bind (fun x => let '(o, h1, r1) := x in
+  | SStack b => m_bind m_leave (mtch b h rest)
+  | STry b hd => m_bind (fun x => let '(o, h1, _, r1) := x in
                                   match o with ORaise => m_add x (mtch hd h1 r1) | _ => [x] end) (mtch b h rest)
-  | SReturn (Some c) => m_emit OReturn h [EReturn c] rest
-  | SReturn None => [(OReturn, h, rest)]
+  | SReturn c => [(OReturn, h, c, rest)]
   | SRaise => []
-  | SBreak => [(OBreak, h, rest)]
-  | SContinue => [(OContinue, h, rest)]
-  | SCall b => m_bind (fun x => let '(o, h1, r1) := x in
-                                [(match o with OReturn => ONormal | _ => o end, h1, r1)]) (mtch b h rest)
+  | SBreak => [(OBreak, h, None, rest)]
+  | SContinue => [(OContinue, h, None, rest)]
+  | SCall b => m_bind (fun x => let '(o, h1, p, r1) := x in
+                                match o, p with
+                                | OReturn, Some c => m_emit ONormal h1 None [EReturn c] r1
+                                | OReturn, None => [(ONormal, h1, None, r1)]
+                                | _, _ => [x]
+                                end) (mtch b h rest)
   end.
 
 Definition accepts (s : skel) (t : list event) : bool :=
-  existsb (fun x => let '(_, _, r) := x in match r with [] => true | _ => false end)
+  existsb (fun x => let '(o, _, p, r) := x in
+                    match o, p with
+                    | OReturn, Some c => match eat [EReturn c] r with Some [] => true | _ => false end
+                    | _, _ => match r with [] => true | _ => false end
+                    end)
           (mtch s None (filter is_ctl t)).
 
 (* storage operations that occur in a term, with the lock they are syntactically under
